@@ -316,6 +316,7 @@ def gen_history(rng: Any, seed: int) -> dict:
         ops[victim]["lifetime"] = rng.choice([2, 3])
         delivery[slow] = float(min(5, ops[victim]["lifetime"] - 1))
     return {"seed": seed, "peering": rng.choice(["default", "verif-peers"]), "ops": ops, "pre_status": pre,
+            "sticky_identities": rng.random() < 0.25,
             "objects": [{"name": "a", "body": {"spec": {"x": 0}}}], "timeline": sorted(tl, key=lambda e: e[0]),
             "delivery": delivery, "end": end}
 
@@ -535,7 +536,14 @@ def oracle_history(ctx: Ctx, sc: dict, tr: dict, full: bool = False) -> dict:
                           and q.get("response") == 200 and abs(q["t"] + LAT - h["t"]) < 1e-9
                           and i["identity"] in ((q.get("payload") or {}).get("status") or {})
                           and ((q.get("payload") or {}).get("status") or {})[i["identity"]] is None]
-                if killer and prev is not None and H.live(prev, h["t"]):
+                if killer and prev is not None and H.live(prev, h["t"]) and killer[0]["who"] == i["who"] and not H.late:
+                    ctx.oracle_fail(f"operator {i['name']} deleted its own fresh record (lastseen {prev.get('lastseen')}) at {h['t']}: its first "
+                                    f"look at the status still showed a dead record of the same identity from a previous process, and the "
+                                    f"clean() of that one landed after its own first touch",
+                                    {"scenario": sc, "inc": i["inc"], "t": h["t"]},
+                                    {"site": "peering.process_peering_event",
+                                     "shape": "own fresh record deleted by the clean() of a stale record of the same identity"})
+                elif killer and prev is not None and H.live(prev, h["t"]):
                     ctx.oracle_fail(f"the fresh record of running operator {i['name']} (lastseen {prev.get('lastseen')}, lifetime "
                                     f"{prev.get('lifetime')}) was deleted at {h['t']} by {'itself' if killer[0]['who'] == i['who'] else killer[0]['who']}"
                                     f", which judged it dead from an older view",
